@@ -14,6 +14,10 @@ import CtrlVerif.Driver.Eval
 import CtrlVerif.Driver.Canon
 import CtrlVerif.Driver.IOSys
 import CtrlVerif.Driver.Flat
+import CtrlVerif.Driver.Disc
+import CtrlVerif.Driver.Convert
+import CtrlVerif.Driver.Norm
+import CtrlVerif.Driver.StateFbk
 
 namespace CtrlVerif.Driver
 
@@ -36,6 +40,10 @@ def dispatch (line : String) : String :=
   | "c15" :: rest => Canon.handle rest
   | "io" :: rest => IO.handle rest
   | "flat" :: rest => Flat.handle rest
+  | "c2d" :: rest => Disc.handle rest
+  | "cv" :: rest => Conv.handle rest
+  | "norm" :: rest => Norm.handle rest
+  | "sf" :: rest => StateFbk.handle rest
   | f :: _ => s!"bad-op family:{f}"
 
 end CtrlVerif.Driver
